@@ -14,6 +14,7 @@ from __future__ import annotations
 import ast
 from . import astutil as au
 from .flow import Domain, Walker
+from .carriers import local_roles
 
 N, TOP = "N", "T"
 MAXSET = 8
@@ -219,7 +220,21 @@ class DegEval:
             if isinstance(e.op, (ast.BitAnd, ast.BitOr, ast.Mod)):
                 return NEUTRAL
             return UNKNOWN
-        if isinstance(e, (ast.Compare, ast.BoolOp)):
+        if isinstance(e, ast.Compare):
+            # a quantity with a time dimension compared with a pure number (other than 0) makes the outcome depend on the unit
+            sides = [e.left] + list(e.comparators)
+            vals = [self.ev(x, env) for x in sides]
+            for x, v in zip(sides, vals):
+                definite = [d for d in v if d not in (N, TOP)]
+                if definite and all(d[0] != 0 for d in definite):
+                    for y in sides:
+                        c = au.const_num(y)
+                        if y is not x and c is not None and c != 0:
+                            self.conflicts.append((e, ("threshold",), definite[0]))
+            return NEUTRAL
+        if isinstance(e, ast.BoolOp):
+            for v in e.values:
+                self.ev(v, env)
             return NEUTRAL
         if isinstance(e, ast.IfExp):
             return union(self.ev(e.body, env), self.ev(e.orelse, env))
@@ -388,6 +403,7 @@ class FnDegrees:
         self.sinks = []
         self.returns_problem = {}      # 'c' / 'l' / 'u' / 'b' -> degree set of the returned problem
         self.returns_tuple = None
+        self.roles = local_roles(fn)
         self.sub = []                  # nested analyses (inlined helpers)
         self._seen_sink = set()
         w = Walker(_Env(self))
@@ -533,8 +549,8 @@ class FnDegrees:
                     if kk in env:
                         self.returns_problem[k] = union(self.returns_problem.get(k, frozenset()), env[kk])
                 # `return c` under costs_only
-                if v.id == "c" and "c" in env:
-                    self._sink("c", node, env["c"], "cost vector returned under costs_only")
+                if self.roles.get(v.id) == "c" and v.id in env and not any(("%s.%s" % (v.id, k)) in env for k in ("l", "u")):
+                    self._sink("c", node, env[v.id], "cost vector returned under costs_only")
             elif isinstance(v, ast.Tuple) and self.fn.name == "define_restr" and len(v.elts) >= 2:
                 self._sink("b", node, ev.ev(v.elts[1], env), "right-hand side of the take rows")
                 self.returns_tuple = [ev.ev(x, env) for x in v.elts]
